@@ -399,7 +399,7 @@ void run_idle_sweep(Judge& j, uint64_t nbase, int max_idle, const std::vector<in
     uint64_t idx = 0;
     Knobs k; k.pubs_max = 6; k.suffix = 12 * SEC; k.span = 1 * SEC; k.faults_max = 1; k.bad_attempts_max = 1; k.big_payload_pct = 0;
     k.rm_choices = {0, 0, 1, 2, 5, 10, 65535}; k.authenticator_pct = 30; k.server_disconnect_pct = 40;
-    const uint64_t nmini = 18;   // deterministic small bases on top of the seeded ones (see below)
+    const uint64_t nmini = 19;   // deterministic small bases on top of the seeded ones (see below)
     // debugging aid: --sweep-bi B [--sweep-pass P] [--sweep-ip N] [--sweep-tk K] re-runs the matching placements only (no sharding)
     const bool dbg = ctx.args.has("sweep-bi");
     const int64_t dbg_bi = dbg ? ctx.args.num("sweep-bi") : -1, dbg_pass = ctx.args.has("sweep-pass") ? ctx.args.num("sweep-pass") : -1,
@@ -423,6 +423,11 @@ void run_idle_sweep(Judge& j, uint64_t nbase, int max_idle, const std::vector<in
                 if (variant < 8) { Action kx; kx.kind = Action::net_kill; kx.at = 250 * MS; kx.ec = 1; base.script.push_back(kx); }
                 else base.net.write_done_delay_max = 400 * MS;
                 Action ra; ra.kind = Action::reauth; ra.at = variant < 8 ? 260 * MS : 300 * MS; base.script.push_back(ra);
+                base.end = 8 * SEC;
+            } else if (variant == 18) {
+                // a broker with a small Maximum Packet Size: a DISCONNECT with long properties loses them and nothing else
+                base.bcfg.caps.maximum_packet_size = 30;
+                Action p; p.kind = Action::publish; p.at = 250 * MS; p.qos = 1; p.topic = "x"; p.payload = "y"; base.script.push_back(p);
                 base.end = 8 * SEC;
             } else if (variant >= 16) {
                 // a transport whose shutdown never completes, and a terminal action whose packet reaches the wire late: behind a slow
